@@ -63,7 +63,8 @@ type CtxIn struct {
 }
 
 type Case struct {
-	Kind   string   `json:"kind"` // contains | parsetimerange | parserange | mutes | stage
+	Kind   string   `json:"kind"` // contains | clamp | parsetimerange | parserange | mutes | stage
+	Clamp  []int    `json:"clamp,omitempty"` // n, lo, hi
 	YAML   string   `json:"yaml,omitempty"`
 	Want   *Intent  `json:"want,omitempty"`
 	Insts  []InstIn `json:"insts,omitempty"`
@@ -77,7 +78,7 @@ type Case struct {
 	Marker *[]string `json:"marker0,omitempty"` // nil = no marker entry before
 }
 
-var zones = []string{"UTC", "America/New_York", "Europe/Berlin", "Australia/Lord_Howe", "Asia/Kathmandu", "Pacific/Apia"}
+var zones = []string{"UTC", "America/New_York", "Europe/Berlin", "Australia/Lord_Howe", "Asia/Kathmandu", "Pacific/Apia", "Pacific/Kiritimati"}
 
 var locCache = map[string]*time.Location{}
 
@@ -706,7 +707,7 @@ func (rn *runner) contains(c *Case) {
 			_, locOff = lt.Zone()
 		}
 		_, ownOff := t.Zone()
-		goDim := time.Date(lt.Year(), lt.Month()+1, 0, 12, 0, 0, 0, lt.Location()).Day()
+		goDim := timeinterval.VerifDaysInMonth(lt) // the real (unexported) daysInMonth, via timeinterval/verif_export.go
 		fields := vh.App("mkCivil", vh.Z(int64(lt.Year())), vh.Z(int64(lt.Month())), vh.Z(int64(lt.Day())),
 			vh.Z(int64(lt.Weekday())), vh.Z(int64(lt.Hour()*60+lt.Minute())))
 		insts = append(insts, vh.App("mkInst", vh.Z(in.Unix), vh.Z(int64(ownOff)), vh.Z(int64(locOff)), fields,
@@ -734,7 +735,7 @@ func (rn *runner) contains(c *Case) {
 		if goDim != monthLen(lt.Year(), lt.Month()) {
 			one := *c
 			one.Insts = []InstIn{in}
-			rn.run.Violate("days-in-month-wrong", fmt.Sprintf("daysInMonth expression gives %d for %d-%02d", goDim, lt.Year(), lt.Month()), &one)
+			rn.run.Violate("days-in-month-wrong", fmt.Sprintf("daysInMonth gives %d for %d-%02d", goDim, lt.Year(), lt.Month()), &one)
 		}
 		rn.run.Count("instants", "tag:"+in.Tag)
 		rn.run.Count("instants", fmt.Sprintf("verdict:%v", verdict))
@@ -1242,11 +1243,15 @@ func TestCheck(t *testing.T) {
 		cases = append(cases, vh.LoadCorpus[Case](env, "C15")...)
 		nCorpus := len(cases)
 		r := vh.NewRand(env.Seed)
-		nInst := 120
-		for i, n := 0, env.N(320, 10); i < n; i++ {
+		nInst := 110
+		for i, n := 0, env.N(280, 10); i < n; i++ {
 			cases = append(cases, genContainsCase(r.Fork(), nInst))
 		}
 		cases = append(cases, genParseCases(r.Fork(), env.N(300, 10))...)
+		for i, n := 0, env.N(60, 10); i < n; i++ {
+			dim := r.Range(28, 31)
+			cases = append(cases, Case{Kind: "clamp", Clamp: []int{r.Range(-35, 35), -dim, dim}})
+		}
 		for i, n := 0, env.N(400, 10); i < n; i++ {
 			cases = append(cases, genMutesCase(r.Fork()))
 		}
@@ -1263,6 +1268,9 @@ func TestCheck(t *testing.T) {
 		switch c.Kind {
 		case "contains":
 			rn.contains(c)
+		case "clamp":
+			out := timeinterval.VerifClamp(c.Clamp[0], c.Clamp[1], c.Clamp[2])
+			run.Add(vh.App("CClamp", vh.Z(int64(c.Clamp[0])), vh.Z(int64(c.Clamp[1])), vh.Z(int64(c.Clamp[2])), vh.Z(int64(out))), c, true)
 		case "parserange":
 			rn.parseRange(c)
 		case "parsetimerange":
